@@ -18,7 +18,7 @@ theorem pointer_invariant (c : Cfg) (ops : List Op) : Inv (run c {} ops) := by
     | cons op rest ih => exact fun s h => ih _ (inv_step c s op h)
   exact this {} ⟨Or.inl rfl, fun h => absurd rfl h⟩
 
-/-- **frame**: any request — variable set/add, counter hit, add player, ball drain with or without extra ball — leaves
+/-- **frame**: any request — variable set/add, any control event of any device, shot-group rotation, add player, ball drain with or without extra ball — leaves
 the whole dictionary (variables *and* stored device state) of every player who is not up before or after it unchanged. -/
 theorem frame (c : Cfg) (s : St) (op : Op) (h : Inv s) (q : Nat) (hq : q < s.players.length)
     (h1 : q ≠ s.cur) (h2 : q ≠ (step c s op).1.cur) (hg : (step c s op).1.players ≠ []) :
@@ -37,55 +37,67 @@ theorem frame_run (c : Cfg) (q : Nat) (ops : List Op) (s : St) (h : Inv s) (hq :
     rw [run, ih (step c s op).1 (inv_step c s op h) (by omega) hr]
     exact frame_step c s op h q hq h1 h2 hg
 
-/-- **restore**: when a ball ends and the next ball starts (next player, next ball of the same player, or an extra
-ball), the counter presents exactly the state object stored in the dictionary of the player who is now up — which by
-`frame_run` is what it presented at the end of that player's previous ball. -/
-theorem restore (c : Cfg) (s : St) (hne : s.players ≠ []) (b : Val)
-    (hg : (step c s .drain).1.players ≠ [])
-    (hb : get (varsOf s (step c s .drain).1.cur) stateKey = some b) :
-    view (step c s .drain).1 = some b := by
-  have key : ∀ (s0 : St) (i : Nat) (k : String) (v : Val), k ≠ stateKey → get (varsOf s0 i) stateKey = some b →
-      view (modeStart (setOn s0 i k v).1 i) = some b := by
-    intro s0 i k v hk hb0
-    have hi : i < s0.players.length := by
-      unfold varsOf at hb0
-      cases hx : s0.players[i]? with
-      | none => simp [hx, Player.get] at hb0
-      | some m => exact (List.getElem?_eq_some_iff.mp hx).1
+/-- **restore**, for every persisting device at once: when a ball ends and the next ball starts (next player, next ball
+of the same player, or an extra ball), each device of the game mode presents `load` of exactly the state stored under
+its key in the dictionary of the player who is now up — which by `frame_run` is what it presented at the end of that
+player's previous ball — and the fresh state if that player never had it.  (`load` is the identity for logic blocks,
+shot/profile states and persisted enable flags; the documented started→stopped rule for achievements; the start value
+for timers.) -/
+theorem restore (c : Cfg) (hk : KeysOK c) (s : St) (h : Inv s) (hne : s.players ≠ [])
+    (hg : (step c s .drain).1.players ≠ []) (d : Dev) (hd : d ∈ c.devs) :
+    view (step c s .drain).1 d = some (loaded d (varsOf s (step c s .drain).1.cur)) := by
+  have hcur := h.2 hne
+  have hlen : 0 < s.players.length := by
+    cases hp : s.players with
+    | nil => exact absurd hp hne
+    | cons _ _ => simp
+  have key : ∀ (s0 : St) (i : Nat) (k : String) (v : Val), i < s0.players.length → k ≠ d.key →
+      view (modeStart c (setOn s0 i k v).1 i) d = some (loaded d (varsOf s0 i)) := by
+    intro s0 i k v hi hkd
     have hv : varsOf (setOn s0 i k v).1 i = put (varsOf s0 i) k v := by
       unfold varsOf; rw [setOn_players, modify_get_same _ _ _ hi]; rfl
-    have hget : get (varsOf (setOn s0 i k v).1 i) stateKey = some b := by
-      rw [hv, get_put_other _ _ _ _ (Ne.symm hk)]; exact hb0
-    unfold modeStart
-    rw [hget]
-    simp only [view]
-    exact hget
-  simp only [step, if_neg hne] at hg hb ⊢
+    have hi2 : i < (setOn s0 i k v).1.players.length := by rw [setOn_players, modify_length]; exact hi
+    have hm : varsOf (modeStart c (setOn s0 i k v).1 i) i = loadAll c.devs (put (varsOf s0 i) k v) := by
+      unfold varsOf modeStart
+      simp only []
+      rw [modify_get_same _ _ _ hi2]
+      unfold varsOf at hv
+      rw [hv]; rfl
+    show (match (modeStart c (setOn s0 i k v).1 i).dev with
+      | none => none
+      | some p => get (varsOf (modeStart c (setOn s0 i k v).1 i) p) d.key) = _
+    rw [modeStart_dev]
+    simp only []
+    rw [hm, loadAll_get _ _ hk.1 d hd]
+    unfold loaded
+    rw [get_put_other _ _ _ _ (Ne.symm hkd)]
+  simp only [step, if_neg hne] at hg ⊢
   split
+  · rw [modeStart_cur, setOn_cur]
+    exact key _ _ _ _ hcur (Ne.symm (hk.2 d hd).2)
   · rename_i hx
-    rw [if_pos hx] at hb
-    rw [modeStart_cur, setOn_cur] at hb
-    exact key _ _ _ _ (by decide) hb
-  · rename_i hx
-    rw [if_neg hx] at hb hg
+    rw [if_neg hx] at hg
     split
     · rename_i hy; rw [if_pos hy] at hg; exact absurd rfl hg
-    · rename_i hy
-      rw [if_neg hy] at hb
-      rw [turnStart_cur] at hb
+    · rw [turnStart_cur]
       unfold turnStart
       simp only []
-      exact key { s with dev := none, cur := _ } _ _ _ (by decide) hb
+      refine key { s with dev := none, cur := _ } _ _ _ ?_ (Ne.symm (hk.2 d hd).1)
+      show (if s.cur + 1 < s.players.length then s.cur + 1 else 0) < s.players.length
+      split <;> omega
 
 /-- **fresh game**: a game started on an idle machine does not depend on anything an earlier game left behind, and
 an accepted player joins with exactly the configured initial dictionary (index, number, the `player_vars` section,
-score 0) while everybody else's dictionary stays as it is. -/
+score 0) while everybody else's dictionary stays as it is; and every device whose key is not among those variables
+starts that player from its fresh state (with `restore`: that is what it presents at the player's first ball). -/
 theorem fresh_game (c : Cfg) (s s' : St) (h : s.players = []) (h' : s'.players = []) :
     step c s .startGame = step c s' .startGame ∧
     (∀ t : St, (step c t .addPlayer).1.players = t.players ∨
                (step c t .addPlayer).1.players = t.players ++ [newVars c t.players.length]) ∧
-    (∀ i k v, (k, v) ∈ c.initVars → (k, v) ∈ newVars c i) := by
-  refine ⟨by simp [step, h, h'], fun t => ?_, fun i k v hm => by simp [newVars, hm]⟩
+    (∀ i k v, (k, v) ∈ c.initVars → (k, v) ∈ newVars c i) ∧
+    (∀ (d : Dev) i, get (newVars c i) d.key = none → loaded d (newVars c i) = d.fresh) := by
+  refine ⟨by simp [step, h, h'], fun t => ?_, fun i k v hm => by simp [newVars, hm],
+    fun d i hn => by unfold loaded; rw [hn]⟩
   simp only [step]
   split
   · exact Or.inl rfl
@@ -112,13 +124,16 @@ theorem var_event_exact (m : Vars) (num : Nat) (k : String) (v : Val) :
       cases ht : truthy (changeOf v ((get m k).getD (.int 0))) <;> simp_all
   · intro a b hv hb; subst hv; simp [hb, changeOf]
 
-/-- the hypotheses are satisfiable and the statements bite: two players, player 1 counts twice and scores, player 2
-counts once; when player 1 is up again the counter shows 2 hits, player 2's dictionary still holds 1 hit -/
+/-- the hypotheses are satisfiable and the statements bite: two players, a shot (3 states) and an achievement-like
+device whose `load` turns 1 into 2; player 1 advances the shot twice and scores, player 2 advances it once; when
+player 1 is up again the shot shows 2, the other device was transformed by `load`, player 2's dictionary still holds 1 -/
 example :
-    let c : Cfg := { initVars := [("pa", .int 5)], ballsPerGame := 2 }
-    let s := run c {} [.startGame, .addPlayer, .hit, .hit, .add "score" 100, .drain, .hit, .drain]
-    Inv s ∧ s.cur = 0 ∧ view s = some (.blk 2 true false) ∧
-    get (varsOf s 1) stateKey = some (.blk 1 true false) ∧ get (varsOf s 0) "score" = some (.int 100) ∧
-    get (varsOf s 1) "score" = some (.int 0) ∧ get (varsOf s 1) "pa" = some (.int 5) := by decide
+    let shot : Dev := ⟨"shot_sh1", .int 0, id, fun _ v => match v with | .int s => .int (s + 1) | x => x⟩
+    let ach : Dev := ⟨"ach", .int 1, fun v => if v = .int 1 then .int 2 else v, fun _ v => v⟩
+    let c : Cfg := { initVars := [("pa", .int 5)], ballsPerGame := 2, devs := [shot, ach] }
+    let s := run c {} [.startGame, .addPlayer, .dev 0 0, .dev 0 0, .add "score" 100, .drain, .dev 0 0, .drain]
+    Inv s ∧ s.cur = 0 ∧ view s shot = some (.int 2) ∧ view s ach = some (.int 2) ∧
+    get (varsOf s 1) "shot_sh1" = some (.int 1) ∧ get (varsOf s 1) "ach" = some (.int 1) ∧
+    get (varsOf s 0) "score" = some (.int 100) ∧ get (varsOf s 1) "score" = some (.int 0) := by decide
 
 end MpfVerif.C11
